@@ -94,8 +94,8 @@ pub fn f1_step<const M: usize, const TOTAL: usize, const CUT: bool>() {
                 }
                 kani::cover!(align >= 256 && size > 0, "REACH: over-aligned non-empty success");
                 kani::cover!(align >= 64 && data & (align - 1) != 0, "REACH: over-aligned success on a chunk base that lacks that alignment");
-                kani::cover!(p == data && size > 0, "REACH: exact fit");
-                kani::cover!(size == 0 && ptr_new < ptr_old, "REACH: ZST consumed padding");
+                kani::cover!(p == data && size > 0, "INFO: exact fit");
+                kani::cover!(size == 0 && ptr_new < ptr_old, "INFO: ZST consumed padding");
                 kani::cover!(M == 1 || align < M, "REACH: Ordering::Less");
                 kani::cover!(align == M, "REACH: Ordering::Equal");
                 kani::cover!(align > M, "REACH: Ordering::Greater");
@@ -106,7 +106,7 @@ pub fn f1_step<const M: usize, const TOTAL: usize, const CUT: bool>() {
                 // C07/C18: a request that fits succeeds whatever the limit
                 vassert!(!fits::<M>(size, align, cap_old), "NEVER: [C07,C09,C18] a request that fits was refused");
                 kani::cover!(size == 0, "REACH: [err] ZST refused (over-aligned below chunk start)");
-                kani::cover!(NLOG > 1, "REACH: [err] more than one size tried");
+                kani::cover!(NLOG > 1, "INFO: [err] more than one size tried");
                 kani::cover!(limit.is_some() && NLOG == 0, "REACH: [err] limit filtered every candidate");
                 // every request the arena made honours the limit and the alignment floor
                 // (checked at one symbolic log index = at every index)
